@@ -8,6 +8,10 @@ NOT_APPLICABLE = {("C%02d" % i): _PENDING for i in range(1, 19)}
 _ENGINE_NOTE = "Trusted: gosym (own SSA->SMT executor; validated per run by differential native replay of solved path models), z3 5.1.0, the sequential models of sync/atomic/context-free stubs listed in evidence.assumptions, go/ssa construction. Bounded: program length, callback nesting depth 1, stream length."
 
 META = {
+    "C18": {
+        "text": "Reachability of every value is decided by witness synthesis plus a universal check on the real code: for each span bit length the solver finds a bias word that makes genUintNBiased draw at full width, and then shows for ALL ranges of that bit length and ALL values that the real Uint64Range/Int64Range returns the value on [witness, value] — a Skolem-function discharge of the forall-exists claim; a bit length without witness (exhaustive search) is an unreachable band, confirmed by a native 400000-draw sweep. Edge frequency is reduced to solver-proved forcing regions of measure >= 2^-8; seed freshness to satisfiability of 'two base seeds differ' and distinctness of the per-case seeds.",
+        "note": _ENGINE_NOTE + " The harness-side Skolem function replicates the sign/offset split of genIntRange.",
+    },
     "C02": {
         "text": "Bounded symbolic model checking of the real checkOnce/T/customGen code: the property function is an interpreter over a symbolic opcode program, so the solver chooses the program (failure kind x callback context) as well as the data; for every program within the bound the invocation is classified as failed iff a failure signal was raised. One inductive step on the funnel every invocation goes through.",
         "note": _ENGINE_NOTE,
